@@ -22,6 +22,7 @@ class RegexList:
     # Clear rules and move on if file isn't there
     if not os.path.exists(self.list_file):
       self.regex_list = []
+      self.rules_last_read = 0.0
       return
 
     try:
